@@ -45,6 +45,50 @@ theorem C12_fn_update_spec (g : VelocityControl) (s : VelocityControlSpec) :
 
 theorem C12_fn_velocity (g : VelocityControl) : g.velocity = (toVC g).velocity := rfl
 
+/-- `get_state` (what `load_from_state` / a persister that stores only the bucket state would keep): the
+    start second and the buckets, nothing of the geometry -/
+theorem C12_fn_get_state (g : VelocityControl) : g.get_state = (toVC g).getState := rfl
+
+/-- `new_with_intervals`: the model's constructor is total; the code asserts a positive bucket interval and a
+    positive bucket count (the only configurations `C12_main` speaks about) and panics otherwise -/
+theorem C12_fn_new_with_intervals (l bi n : Nat) :
+    (VelocityControl.new_with_intervals l bi n).map toVC
+      = if 0 < bi ∧ 0 < n then .ok (VC.newWithIntervals l bi n) else .error .panic := by
+  by_cases h : 0 < bi ∧ 0 < n
+  · obtain ⟨h1, h2⟩ := h
+    simp [VelocityControl.new_with_intervals, Rs.assert, h1, h2, toVC, VC.newWithIntervals, Rs.vecResize, Except.map]
+  · have h' : (decide (bi > 0) && decide (n > 0)) = false := by
+      simp only [Bool.and_eq_false_iff, decide_eq_false_iff_not]
+      by_cases hb : 0 < bi
+      · exact Or.inr (fun hn => h ⟨hb, hn⟩)
+      · exact Or.inl hb
+    simp [VelocityControl.new_with_intervals, Rs.assert, h', h, Rs.panic, Except.map]
+
+/-- `new_unlimited`: the same with the limit `u64::MAX` -/
+theorem C12_fn_new_unlimited (bi n : Nat) :
+    (VelocityControl.new_unlimited bi n).map toVC
+      = if 0 < bi ∧ 0 < n then .ok (VC.newWithIntervals U64.MAX bi n) else .error .panic := by
+  by_cases h : 0 < bi ∧ 0 < n
+  · obtain ⟨h1, h2⟩ := h
+    simp [VelocityControl.new_unlimited, Rs.assert, h1, h2, toVC, VC.newWithIntervals, Rs.vecResize, Except.map]
+    rfl
+  · have h' : (decide (bi > 0) && decide (n > 0)) = false := by
+      simp only [Bool.and_eq_false_iff, decide_eq_false_iff_not]
+      by_cases hb : 0 < bi
+      · exact Or.inr (fun hn => h ⟨hb, hn⟩)
+      · exact Or.inl hb
+    simp [VelocityControl.new_unlimited, Rs.assert, h', h, Rs.panic, Except.map]
+
+/-- `new(spec)`: never panics (every row of `spec_to_triple` is well-formed) and is the model's `VC.ofSpec` -/
+theorem C12_fn_new (s : VelocityControlSpec) :
+    (VelocityControl.new s).map toVC = .ok (VC.ofSpec (toSpec s)) := by
+  cases s with
+  | mk l it =>
+    cases it <;>
+      simp [VelocityControl.new, VelocityControl.spec_to_triple, VelocityControl.new_with_intervals, Rs.assert,
+        toVC, toSpec, toIType, VC.ofSpec, Spec.triple, VC.newWithIntervals, Rs.vecResize, Except.map] <;>
+      first | exact ⟨rfl, rfl⟩ | exact ⟨rfl, rfl, rfl⟩
+
 /-- the shift loop of `insert` (`for _ in 0..nshift { self.buckets.insert(0, 0) }`) prepends `n` zeros -/
 theorem C12_fn_shift_loop (n : Nat) : ∀ s : VelocityControl,
     Rs.iter (fun s : VelocityControl => { s with buckets := 0 :: s.buckets }) n s
